@@ -1032,6 +1032,9 @@ func (e *Exec) keyString(k Value) (string, bool) {
 // mapFind returns the position of key in m, or -1. Symbolic comparisons fork.
 func (e *Exec) mapFind(m *MapObj, key Value) int {
 	ks, conc := e.keyString(key)
+	if conc && hasNaN(key) {
+		return -1 // NaN != NaN: a key holding a NaN is never found (and every insertion adds an entry)
+	}
 	if conc {
 		if i, ok := m.idx[ks]; ok {
 			return i
@@ -1059,6 +1062,31 @@ func (e *Exec) mapFind(m *MapObj, key Value) int {
 		}
 	}
 	return -1
+}
+
+// hasNaN reports whether a concrete key value is or contains a floating-point NaN.
+func hasNaN(k Value) bool {
+	switch k := k.(type) {
+	case float64:
+		return k != k
+	case float32:
+		return k != k
+	case Iface:
+		return k.v != nil && hasNaN(k.v)
+	case Struct:
+		for _, f := range k {
+			if hasNaN(f) {
+				return true
+			}
+		}
+	case Array:
+		for _, f := range k {
+			if hasNaN(f) {
+				return true
+			}
+		}
+	}
+	return false
 }
 
 func (e *Exec) mapSet(m *MapObj, key, val Value) {
